@@ -22,8 +22,10 @@ def build_plans(world):
     cb = {} if read.get("cb") else None
     if read["ep"] == "readConfig":
         ops.append({"op": "newOpts", "o": 0, "options": gen.option_string(read), "tag": "new"})
+        ops += gen.late_global_ops(read)
         ops.append(dict(gen.read_op(read, o=0, cb=cb, in_slot=0), tag="read"))
     else:
+        ops += gen.late_global_ops(read)
         ops.append(dict(gen.read_op(read, o=0, cb=cb), tag="read"))
     ops.append({"op": "dump", "k": 0, "ext": False, "tag": "dump"})
     ops.append({"op": "free", "k": 0})
